@@ -13,7 +13,7 @@ from .. import core, nets, observe, tla
 LEVEL = "model_checking"
 
 
-QUERIES = ["peak", "stats", "describe", "max_size", "leaf_sizes", "none", "none"]
+QUERIES = ["peak", "stats", "describe", "max_size", "leaf_sizes", "compressed", "none", "none"]
 
 
 def query(tree, q):
@@ -25,6 +25,14 @@ def query(tree, q):
         tree.describe("full")
     elif q == "max_size":
         tree.max_size()
+    elif q == "compressed":
+        # a compressed-cost estimate is a pure query too (it works on its own hypergraph copy of the tree)
+        try:
+            tree.compressed_contract_stats(chi=2)
+            tree.compressed_contract_stats(chi=10**6, compress_late=True)
+            tree.max_size_compressed(chi=1)
+        except Exception:
+            pass        # networks the compressed estimator does not support
     elif q == "leaf_sizes":
         for t in range(tree.N):
             tree.get_size(frozenset([t]))
